@@ -6,8 +6,8 @@
     are the named hypotheses H_weights / H_fourier_orth / H_legendre_orth(_deg) /
     H_p_support / H_f0 / H_p00, re-checked numerically per explored grid by
     tools/props/C01.py (table obligations). *)
-From Dino Require Import Base.Ops Base.Sums Base.Inst Model.SHT Model.SHTFast Thm.SHT Thm.SHTFast
-  Gen.GridTable.
+From Dino Require Import Base.Ops Base.Sums Base.Inst Model.SHT Model.SHTFast Model.FourierR
+  Thm.SHT Thm.SHTFast Thm.FourierR Gen.GridTable.
 From Coq Require Import Reals Qcanon Lra.
 Local Open Scope F_scope.
 
@@ -151,6 +151,58 @@ Proof.
     apply Rmult_integral_contrapositive_currified; apply Rinv_neq_0_compat; apply Rgt_not_eq; assumption.
 Qed.
 
+(** *** the Fourier half of the orthonormality is a THEOREM (no longer a table obligation):
+    the closed form of fourier.real_basis / quadrature_nodes over the reals
+    (columns [1/sqrt(2 pi), cos(1 x)/sqrt(pi), sin(1 x)/sqrt(pi), cos(2 x)/sqrt(pi), ...],
+    nodes x_i = offset + 2 pi i / I, weights 2 pi / I) is discretely orthonormal
+    for EVERY longitude offset, every M >= 1 and every I >= 2M-1.
+    Exact condition used by the algebra (C01_fourier_orth_columns_R): the
+    wavenumber sum |m(a)| + |m(b)| of the two columns is < I, so that every sum
+    and non-zero difference k of the two wavenumbers has 0 < |k| < I (not a
+    multiple of I) and the geometric sums of cos(k x_i), sin(k x_i) vanish.
+    Negative example, I < 2M-1 (aliasing): I = 2, M = 2, a = b = 1 gives
+    (2 pi / 2) (cos(0)^2 + cos(pi)^2) / pi = 2, not 1 - see C01_fourier_aliasing_R. *)
+Theorem C01_fourier_orth_columns_R (off : R) (I a b : nat) :
+  (0 < I)%nat -> (mabs_real a + mabs_real b < I)%nat ->
+  (fourier_weight I * sumn I (fun i => real_basis_R off I i a * real_basis_R off I i b))%R
+  = (if Nat.eqb a b then 1 else 0)%R.
+Proof. intros HI H. exact (fourier_orth_columns off I a b HI H). Qed.
+
+Theorem C01_fourier_orth_R (off : R) (M I : nat) :
+  (1 <= M)%nat -> (2 * M - 1 <= I)%nat ->
+  H_fourier_orth (modal_rows_real M) I (real_basis_R off I) (fourier_weight I).
+Proof. exact (fourier_orth_R off M I). Qed.
+
+(** consequently the round trip over the reals needs only the Legendre-side hypotheses *)
+Theorem C01_sht_roundtrip_fourier_R (off : R) (M L I J : nat) p w wp x a l :
+  let K := modal_rows_real M in
+  (1 <= M)%nat -> (2 * M - 1 <= I)%nat ->
+  H_weights J w (fourier_weight I) wp ->
+  H_legendre_orth K L J p wp mabs_real -> H_p_support K L J p mabs_real ->
+  (a < K)%nat -> (l < L)%nat ->
+  analysis K I J (real_basis_R off I) p w (synth K L J (real_basis_R off I) p x) a l
+  = apply_mask mask_real x a l.
+Proof.
+  intros K HM HI Hw Ho Hs Ha Hl. unfold apply_mask. rewrite mask_real_spec.
+  apply (sht_roundtrip K L I J (real_basis_R off I) p w (fourier_weight I) wp mabs_real); auto.
+  now apply fourier_orth_R.
+Qed.
+
+(** aliasing: with I = 2 < 2M-1 = 3 the cos(1 x) column has squared norm 2 *)
+Theorem C01_fourier_aliasing_R :
+  (fourier_weight 2 * sumn 2 (fun i => real_basis_R 0 2 i 1 * real_basis_R 0 2 i 1))%R = 2%R.
+Proof.
+  pose proof PI_RGT_0 as Hpi.
+  assert (Hs : (sqrt PI * sqrt PI = PI)%R) by (apply sqrt_sqrt; lra).
+  assert (Hsn : sqrt PI <> 0%R) by (apply Rgt_not_eq, sqrt_lt_R0; lra).
+  unfold fourier_weight, real_basis_R, real_basis_g, lon_node, sumn.
+  cbn [Nat.add Nat.div Nat.divmod fst fadd fmul fdiv f0 f1 ROps INR].
+  change (Nat.odd 1) with true. cbv iota.
+  replace (1 * (0 + 2 * PI * 0 / (1 + 1)))%R with 0%R by field.
+  replace (1 * (0 + 2 * PI * 1 / (1 + 1)))%R with PI by field.
+  rewrite cos_0, cos_PI. rewrite <- Hs at 1. field. assumption.
+Qed.
+
 (** the literal _CONSTANT_NORMALIZATION_FACTOR of primitive_equations.py (read by the
     translator): its square lies in [12.566370, 12.566371], the 6-decimal bracket of
     4 pi = 12.56637061...  (pure rational arithmetic.  The real-number statement
@@ -230,6 +282,10 @@ Print Assumptions C01_sht_integral.
 Print Assumptions C01_fast_roundtrip.
 Print Assumptions C01_fast_padding_inert.
 Print Assumptions C01_sht_integral_R.
+Print Assumptions C01_fourier_orth_columns_R.
+Print Assumptions C01_fourier_orth_R.
+Print Assumptions C01_sht_roundtrip_fourier_R.
+Print Assumptions C01_fourier_aliasing_R.
 Print Assumptions C01_normalization_literal.
 Print Assumptions C01_grid_table_resolves.
 Print Assumptions C01_hyps_satisfiable.
